@@ -338,7 +338,7 @@ func runC07(r *mc.Run) {
 		g.Responses[world.URLQeIdentity] = world.Response{Header: w.QeHdr, Body: world.SignedBody("enclaveIdentity", member, w.PKI.TcbKey)}
 		o := w.Options(world.L1)
 		o.Getter = g
-		err := world.SafeVerifyRaw(raw, o)
+		err := verifyRawBoth(r, c.id, raw, o)
 		var ej ref.QeIdentityJ
 		json.Unmarshal(member, &ej)
 		rp, _ := ref.ParseQuote(raw)
